@@ -88,8 +88,8 @@ def run(ctx):
     pp = os.path.join(ctx.work, "patterns.ndjson")
     write_ndjson(pp, patterns)
     trace = os.path.join(ctx.work, "hyg.ndjson")
-    stride = [13, 16, 17, 19][ctx.seed % 4] if quick else 1
-    ctx.grammar_corpus(stride=24 if quick else 12, skstride=8 if quick else 4)
+    stride = [13, 16, 17, 19][ctx.seed % 4] if quick else 3
+    ctx.grammar_corpus(stride=24 if quick else 16, skstride=8 if quick else 6)
     ctx.vh(["trans", "hygiene", "--patterns", pp, "--out", trace, "--stride", str(stride), "--dense", str(dense)], timeout=3000)
     n_ok, rejected = validate_histories(ctx, AREA, "TransTrace", trace, chunk_events=60000, max_cand=400, parallel=12)
     ctx.cov["traces_validated_against_impl"] += n_ok
